@@ -7,7 +7,8 @@ The search states of the backtracking model are `Outcome Table`: a panic inside
 `children` (an index panic in `get`/`set`, the "coset table is not transitive" assertion)
 becomes a child `.panic` that is yielded as an item and has no children — the items
 before it are exactly what the Rust iterator yields before it panics.
-(`scan_both_ways` is the D10-repaired version, so the empty relator is harmless.)
+(`scan_both_ways` is the D10-repaired version, so the empty relator is harmless;
+`compare_renumbered_from` is the D15-repaired version.)
 -/
 import DSymVerif.Model.Cosets
 import DSymVerif.Model.Backtrack
@@ -113,14 +114,17 @@ def lookupNat (k : Nat) : List (Nat × Nat) → Option Nat
   | (k', v) :: r => if k' = k then some v else lookupNat k r
 
 /-- inner `for g in table.all_gens()` loop; state = (`n2o` as a vector, `o2n` as an
-    association list); result `some r` = `return r` with `r ≠ 0` -/
+    association list); result `some r` = `return r`.  D15 repaired: an undefined entry of
+    the table itself means "cannot decide yet" (`return 0`); the pinned tree compared it as
+    the large value `n`, so a renumbering with a defined entry there looked smaller and
+    `is_canonical` pruned partial tables whose completion is canonical. -/
 def compareGens (t : Table) (n row : Nat) :
     List Int → Array Nat × List (Nat × Nat) → Outcome (Option Int × (Array Nat × List (Nat × Nat)))
   | [], s => .ok (none, s)
   | g :: gs, (n2o, o2n) =>
     match t.get row g with
-    | .ok ov =>
-      let oval := ov.getD n
+    | .ok none => .ok (some 0, (n2o, o2n))
+    | .ok (some oval) =>
       match n2o[row]? with
       | none => .panic
       | some r =>
